@@ -44,7 +44,7 @@ CORE = ["ApiVersions", "Metadata", "Produce", "Fetch", "ListOffsets", "FindCoord
         "OffsetCommit", "OffsetFetch", "SaslHandshake", "SaslAuthenticate", "CreateTopics", "DeleteTopics", "InitProducerId", "AddPartitionsToTxn",
         "AddOffsetsToTxn", "EndTxn", "TxnOffsetCommit", "ListGroups", "DescribeGroups"]
 MAXVIOL = 50
-JOPTS = "-Xmx2g -XX:ParallelGCThreads=2 -XX:TieredStopAtLevel=4"
+JOPTS = "-Xmx2g -Xss64m -XX:ParallelGCThreads=2 -XX:TieredStopAtLevel=4"
 
 
 # ---------------------------------------------------------------------------------------------- schemas
@@ -284,7 +284,7 @@ def conn_judge_shard(ctx, d, req_path, k, part, tag):
     write_ndjson(cp, part)
     jtmp = os.path.join(ctx.work, "jtmp")
     c = ctx.tlc(ENGINE, "WireConnCheck", "WireConnCheck.cfg", workers=1, timeout=1500, tag="conn%s%d" % (tag, k),
-                env={"SCHEMAS": req_path, "CONNS": cp, "JAVA_TOOL_OPTIONS": JOPTS + " -Xss32m -Djava.io.tmpdir=" + jtmp})
+                env={"SCHEMAS": req_path, "CONNS": cp, "JAVA_TOOL_OPTIONS": JOPTS + " -Djava.io.tmpdir=" + jtmp})
     m = re.search(r'<<"WIRECONNCHECK", (\d+), (\d+), (\d+), (\d+)>>', c["out"])
     if c["timeout"] or not m or (c["error"] and not c["postcondition_failed"]):
         raise Inconclusive("WireConnCheck failed (shard %d): %s" % (k, (c["error"] or c["out"])[-1500:]))
